@@ -140,7 +140,7 @@ def check(cx):
     wc = field_writers(p, CACHE).get("capacity", set())
     okset = {CACHE + "::set_capacity"}
     for x in sorted(wc):
-        cx.verdict(x in okset, r3, "writer:" + x, p.fn(x).where(), "capacity written by its setter",
+        cx.verdict(x in okset, r3, "writer:" + x, p.where_of(x), "capacity written by its setter",
                    "%s writes PageCache.capacity: after it the cache refuses or mis-sizes every insertion (D6)" % x)
     if not wc:
         cx.bad(r3, "no-writer", "", "PageCache.capacity has no writer at all")
@@ -288,7 +288,7 @@ def check(cx):
             for caller in sorted(K.callers_of(p, fid, {"Database::vacuum", K.PAGER + "::clear_aborted_up_to"})):
                 root = p.fn(caller).root or caller
                 okc = root in ("Database::vacuum", K.PAGER + "::clear_aborted_up_to")
-                cx.verdict(okc, r4, "%s<-%s" % (fid.rsplit("::", 2)[-2] + "::" + nm, root), p.fn(caller).where(), "cleared by VACUUM",
+                cx.verdict(okc, r4, "%s<-%s" % (fid.rsplit("::", 2)[-2] + "::" + nm, root), p.where_of(caller), "cleared by VACUUM",
                            "%s clears bits of the persisted aborted bitmap outside VACUUM: rolled-back transactions whose tuples are still in "
                            "the data file become committed after the next reopen" % root)
 
